@@ -2,7 +2,10 @@ package main
 
 import (
 	"bytes"
+	"crypto/rsa"
+	stdx509 "crypto/x509"
 	"fmt"
+	"math/big"
 	"os"
 	"path/filepath"
 	"regexp"
@@ -196,6 +199,86 @@ func subConc(out string, seed uint64, tier string, arg string) {
 			}
 		}
 	}
+	// ---- the same content under different registries at the same time: certificates that carry one RSA modulus (a product of
+	// close primes that Fermat's method splits in `need` rounds), parsed separately by every goroutine, linted concurrently with
+	// a registry configured to fewer rounds than needed and with one configured to more — each call must answer what it answers alone
+	func() {
+		var n *big.Int
+		var need int64
+		for i := 0; i < 40 && n == nil; i++ {
+			pp, _ := closePrimes(256, int64(1000+i))
+			gap := new(big.Int).Lsh(big.NewInt(int64(60+i*8)), 126)
+			q := nextPrime(new(big.Int).Add(pp, gap))
+			m := new(big.Int).Mul(pp, q)
+			astar := new(big.Int).Rsh(new(big.Int).Add(pp, q), 1)
+			a0 := new(big.Int).Add(new(big.Int).Sqrt(m), big.NewInt(1))
+			nd := new(big.Int).Add(new(big.Int).Sub(astar, a0), big.NewInt(1))
+			if nd.IsInt64() && nd.Int64() >= 20 && nd.Int64() <= 5000 {
+				n, need = m, nd.Int64()
+			}
+		}
+		if n == nil {
+			rep.count("same-modulus-phase:no-modulus")
+			return
+		}
+		der, err := BuildCert(CertSpec{PubKey: &rsa.PublicKey{N: n, E: 65537}, DNS: []string{"conc.example.com"}, EKUs: []stdx509.ExtKeyUsage{stdx509.ExtKeyUsageServerAuth}})
+		if err != nil {
+			return
+		}
+		mk := func(rounds int64) lint.Registry {
+			r, _ := g.Filter(lint.FilterOptions{IncludeNames: []string{"e_rsa_fermat_factorization", "w_rsa_mod_not_odd", "e_rsa_mod_less_than_2048_bits"}})
+			cfg, _ := lint.NewConfigFromString(fmt.Sprintf("[e_rsa_fermat_factorization]\nRounds = %d\n", rounds))
+			r.SetConfiguration(cfg)
+			return r
+		}
+		regs2 := []lint.Registry{mk(need / 2), mk(need * 2)}
+		var alone [2]string
+		for i, r := range regs2 {
+			o := parseObj("cert", "kit-conc-modulus", der)
+			if o == nil {
+				return
+			}
+			rs, p := lintObj(o, r)
+			if p != "" || rs == nil {
+				return
+			}
+			alone[i] = canonRS(rs)
+		}
+		if alone[0] == alone[1] {
+			rep.count("same-modulus-phase:registries-agree")
+		}
+		runtime.GOMAXPROCS(runtime.NumCPU())
+		var wg sync.WaitGroup
+		iters := 60
+		if tier == "thorough" {
+			iters = 600
+		}
+		for w := 0; w < 8; w++ {
+			wg.Add(1)
+			go func(w int) {
+				defer wg.Done()
+				for k := 0; k < iters; k++ {
+					o := parseObj("cert", "kit-conc-modulus", der)
+					if o == nil {
+						return
+					}
+					rs, p := lintObj(o, regs2[w%2])
+					if p != "" || rs == nil {
+						violate(Violation{"C10", "linting the shared-modulus certificate panics under concurrency: " + p, "same-modulus-panic", replayOf(o, nil)})
+						return
+					}
+					if got := canonRS(rs); got != alone[w%2] {
+						violate(Violation{"C10", fmt.Sprintf("a certificate linted with Rounds = %d while the same modulus is linted with another registry's Rounds gets a result it does not get alone: %s", []int64{need / 2, need * 2}[w%2], firstDiff(alone[w%2], got)),
+							"same-modulus-differs", replayOf(o, map[string]interface{}{"rounds_needed": need})})
+						return
+					}
+				}
+			}(w)
+		}
+		wg.Wait()
+		rep.Evaluations += 8 * iters
+		rep.count("same-modulus-phase")
+	}()
 	// registry must still be intact
 	names := g.Names()
 	if !sort.StringsAreSorted(names) || len(names) != len(g.CertificateLints().Lints())+len(g.RevocationListLints().Lints())+len(g.OcspResponseLints().Lints()) {
